@@ -95,6 +95,10 @@ class TaskGenerator:
 
     def __filter(self, node):
         """Apply the filter of ``self.mutator`` (if any) to ``node``."""
+        if smtlib.has_comment_operand(node):
+            # no mutator takes a comment for an operand: the node has to wait
+            # until the comment itself (a leaf) has been erased
+            return False
         if not hasattr(self.mutator, 'filter'):
             return True
         try:
